@@ -344,4 +344,64 @@ theorem handleAllocationDone_no_panic (m : M) (ex mi : Bool) (hcc : m.1.complete
     · exact fresh
     · simpa using hp0
 
+theorem allocatorRun_no_panic (m : M) (hcc : m.1.completeCClosed = m.1.completed) (hq : QueueOK m.1) :
+    (allocatorRun m).1.panicked = m.1.panicked := by
+  unfold allocatorRun
+  dsimp only
+  split
+  · simp only [onSt_fst]; rw [stop_panicked]
+  · rw [handleAllocationDone_no_panic]
+    · simp
+    · simpa using hcc
+    · exact hq.of_peers (by simp)
+
+/-- `handleVerificationDone`: the bitfield has just been installed; the completion check does not panic
+when the completion flags agree. -/
+theorem handleVerificationDone_no_panic (m : M) (hcc : m.1.completeCClosed = m.1.completed) (hq : QueueOK m.1)
+    (hp : m.1.panicked = none) : (handleVerificationDone m).1.panicked = none := by
+  have hpan : (hvdInstall m).1.panicked = none := by
+    rw [hvdInstall_eq]
+    simp only [onSt_fst]
+    have : (hvdPre m).1.panicked = none := by simp [hvdPre, St.writeBitfield, hp]
+    split <;> simp [this]
+  have hbf : (hvdInstall m).1.bf.isSome = true := by
+    rw [hvdInstall_eq]; simp only [onSt_fst]; split <;> simp [hvdPre]
+  have hcc1 : (hvdInstall m).1.completeCClosed = (hvdInstall m).1.completed := by
+    rw [hvdInstall_eq]; simp only [onSt_fst]
+    split
+    · unfold St.resetCompletion; split <;> simp_all
+    · simpa using hcc
+  rw [handleVerificationDone_eq]
+  dsimp only
+  split
+  · simp only [onSt_fst]; rw [stop_panicked]; exact hpan
+  · rw [hadCheck_no_panic]
+    · simpa using hpan
+    · simpa using hbf
+    · intro h; have := hcc1; simp only [hvdHaves_completeCClosed, hvdHaves_completed] at h ⊢; rw [← this]; exact h
+    · have hq1 : QueueOK (hvdInstall m).1 := hq.of_peers (by simp)
+      unfold hvdHaves
+      dsimp only
+      apply foldl_inv (fun x : M => QueueOK x.1)
+      · intro x p hx
+        apply updateInterested_queueOK
+        exact hx.of_peers (by simp)
+      · exact hq1
+
+/-- `writerRun`: given that a good, current job finds a bitfield in which its piece is not yet set. -/
+theorem writerRun_no_panic (m : M) (w : WriteJob)
+    (hbit : w.good = true → ∃ b, m.1.bf = some b ∧ b.getD w.piece false = false)
+    (hcc : m.1.completeCClosed = true → m.1.completed = true) :
+    (writerRun m w).1.panicked = m.1.panicked := by
+  unfold writerRun
+  dsimp only
+  repeat' split
+  all_goals
+    rw [handlePieceWriteDone_no_panic]
+    all_goals first
+      | rfl
+      | (intro hg _; simpa using hbit hg)
+      | (intro hg h; cases h)
+      | (simpa using hcc)
+
 end Rain.Loop
